@@ -75,7 +75,7 @@ theorem lookup_filter_ne (l : List (String × Nat)) (n x : String) :
         simp [this]
       · simp [hx]
 
-theorem mem_of_lookup' : ∀ (l : List (String × Nat)) (k : String) (v : Nat), l.lookup k = some v → (k, v) ∈ l
+theorem mem_of_lookupSN : ∀ (l : List (String × Nat)) (k : String) (v : Nat), l.lookup k = some v → (k, v) ∈ l
   | [], _, _, h => by simp at h
   | (k', v') :: rest, k, v, h => by
     simp only [List.lookup] at h
@@ -83,7 +83,7 @@ theorem mem_of_lookup' : ∀ (l : List (String × Nat)) (k : String) (v : Nat), 
     · subst hk; simp at h; subst h; simp
     · have : (k == k') = false := by simpa using hk
       rw [this] at h
-      exact List.mem_cons_of_mem _ (mem_of_lookup' rest k v h)
+      exact List.mem_cons_of_mem _ (mem_of_lookupSN rest k v h)
 
 theorem eq_of_same_id {l : List (String × Nat)} (h : (l.map (·.2)).Nodup) {p q : String × Nat}
     (hp : p ∈ l) (hq : q ∈ l) (hid : p.2 = q.2) : p = q := by
@@ -147,7 +147,7 @@ theorem rinv_step {r : Reg} (h : RInv r) (op : Op) : RInv (step r op) := by
     | none => exact h
     | some id =>
       simp only
-      have hm : (n, id) ∈ r.live := mem_of_lookup' _ _ _ hl
+      have hm : (n, id) ∈ r.live := mem_of_lookupSN _ _ _ hl
       refine ⟨?_, ?_, ?_, ?_, ?_, ?_⟩
       · intro x
         rw [lookup_filter_ne, lookup_setMeta]
@@ -185,7 +185,7 @@ theorem rinv_step {r : Reg} (h : RInv r) (op : Op) : RInv (step r op) := by
             | none => rfl
             | some _ => exact absurd (Or.inl (by simp [hbl])) hb
           · exact fun e => hb (Or.inr e)
-        have hm : (a, id) ∈ r.live := mem_of_lookup' _ _ _ hl
+        have hm : (a, id) ∈ r.live := mem_of_lookupSN _ _ _ hl
         refine ⟨?_, ?_, ?_, ?_, ?_, ?_⟩
         · intro x
           simp only [List.lookup, lookup_setMeta, lookup_filter_ne]
